@@ -347,7 +347,8 @@ TEXT = {
           "(C03_greatest_of_coprime, C03_greatest_univariate). For several variables greatestness is decided by (a) the constructed common factor g0 having to "
           "divide the answer, (b) coprime integer contents of the cofactors, (c) a verified Bezout identity at a specialisation that "
           "keeps a leading coefficient, for every shared variable; the step from (b)+(c) to 'no common factor' is classical and not "
-          "formalised. Over Z_p: monic gcd, verified Bezout identity of the cofactors, u*p+v*q identities and degree bounds.",
+          "formalised. Over Z_p: monic gcd, verified Bezout identity of the cofactors (sound: the list arithmetic mod p is the arithmetic of "
+          "(Z/p)[X] and an accepted certificate proves IsCoprime there, FPoly.coprimeCert_sound), u*p+v*q identities and degree bounds.",
   "design_ref": "5.3",
   "note": "validator style; 'inconclusive' certificate searches are accepted on the strength of the known common divisor only and counted in the evidence (model_branches_hit: */common-divisor-only)",
   "technique": "Lean 4 proved certificate soundness (divisibility, Bezout => coprime) + per-output validation under all gcd strategies",
